@@ -189,6 +189,7 @@ Proof.
       * inversion Hn; subst x. cbn [pend busy] in *. split; [exact IH1|lia].
       * inversion Hn; subst x. cbn [pend busy] in *. split; [exact IH1|lia].
       * inversion Hn; subst x. cbn [pend busy] in *. split; [exact IH1|lia].
+      * inversion Hn; subst x. cbn [pend busy] in *. split; [exact IH1|lia].
       * destruct (op_eq_dec o o0); [|discriminate]. destruct (ret_eq_dec r r0); [|discriminate].
         inversion Hn; subst. cbn [pend busy] in *. rewrite filt_cons_same. cbn [app] in *.
         split; [rewrite IH1; reflexivity|lia].
@@ -217,6 +218,7 @@ Proof.
       + inversion Hn; subst w. cbn in Ho. destruct Ho as [<-|[]]. apply (Hi u). left. reflexivity.
       + destruct (op_eq_dec o1 o0); [|discriminate]. inversion Hn; subst. cbn in Ho. destruct Ho as [<-|[]].
         apply (Hs u). rewrite Hsu. left. reflexivity.
+      + inversion Hn; subst w. apply (Hs u). rewrite Hsu. exact Ho.
       + inversion Hn; subst w. apply (Hs u). rewrite Hsu. exact Ho.
       + inversion Hn; subst w. apply (Hs u). rewrite Hsu. exact Ho.
       + inversion Hn; subst w. apply (Hs u). rewrite Hsu. exact Ho.
@@ -279,8 +281,10 @@ Definition abs (th : thread) : wst :=
   match tstate th with
   | TIdle => WIdle
   | TInv o => WInv o
+  | TMiss k v => WInv (OLoadOrStoreFn k v)
   | TFn k v => WInv (OLoadOrStoreFn k v)
   | TRng _ _ _ => WInv ORange
+  | TRngCb _ _ _ _ _ => WInv ORange
   | TRes o r => WLin o r
   end.
 
@@ -288,8 +292,10 @@ Definition cur_ops (th : thread) : list op :=
   match tstate th with
   | TIdle => []
   | TInv o => [o]
+  | TMiss k v => [OLoadOrStoreFn k v]
   | TFn k v => [OLoadOrStoreFn k v]
   | TRng _ _ _ => [ORange]
+  | TRngCb _ _ _ _ _ => [ORange]
   | TRes o _ => [o]
   end ++ tops th.
 
@@ -313,7 +319,7 @@ Lemma tstep_facts : forall rep ch m th m' th' e,
       /\ wnext (abs th) e = Some (abs th')).
 Proof.
   intros rep ch m [st ops] m' th' e H. unfold tstep in H. cbn [tstate tops] in H.
-  destruct st as [|o|k v|must seen acc|o r].
+  destruct st as [|o|k v|k v|must seen acc|must seen acc k v|o r].
   - destruct ops as [|o rest]; [discriminate|]. inversion H; subst. unfold cur_ops, abs. cbn.
     repeat split; auto. intros o0 Ho. inversion Ho; subst. left. reflexivity.
   - destruct o;
@@ -328,6 +334,7 @@ Proof.
       * repeat split; auto; discriminate.
     + (* Range *)
       inversion H; subst; unfold cur_ops, abs; cbn [tstate tops app]. repeat split; auto; discriminate.
+  - inversion H; subst. unfold cur_ops, abs; cbn [tstate tops app]. repeat split; auto; discriminate.
   - unfold cur_ops, abs; cbn [tstate tops app]. destruct rep.
     + destruct (spec m (OLoadOrStore k v)) as [m1 r1] eqn:Es. inversion H; subst.
       cbn [tstate tops app]. repeat split; auto; try discriminate.
@@ -335,10 +342,11 @@ Proof.
     + inversion H; subst. cbn [tstate tops app]. repeat split; auto; try discriminate;
         destruct H0 as [_ [Hx|Hx]]; try discriminate; exfalso; apply (Hx k v); left; reflexivity.
   - unfold cur_ops, abs. destruct ch as [k|].
-    + destruct (existsb (Nat.eqb k) seen); [discriminate|]. inversion H; subst. cbn [tstate tops app].
-      repeat split; auto; try discriminate.
+    + destruct (existsb (Nat.eqb k) seen); [discriminate|].
+      destruct (get m k); inversion H; subst; cbn [tstate tops app]; repeat split; auto; try discriminate.
     + destruct must; [|discriminate]. inversion H; subst. cbn [tstate tops app].
       repeat split; auto; try discriminate; destruct H0 as [Hno _]; exfalso; apply Hno; left; reflexivity.
+  - inversion H; subst. unfold cur_ops, abs; cbn [tstate tops app]. repeat split; auto; discriminate.
   - inversion H; subst. unfold cur_ops, abs; cbn [tstate tops app]. repeat split; auto; try discriminate.
     + intros o0 Ho. right. exact Ho.
     + cbn [wnext]. destruct (op_eq_dec o o); [|congruence]. destruct (ret_eq_dec r r); congruence.
@@ -516,7 +524,7 @@ Qed.
 Definition losf_progs : nat -> list op :=
   fun t => match t with 0 => [OLoadOrStoreFn 0 1] | 1 => [OLoadOrStoreFn 0 2] | _ => [] end.
 Definition losf_sched : list (nat * option nat) :=
-  [(0, None); (0, None); (1, None); (1, None); (0, None); (1, None); (0, None); (1, None)].
+  [(0, None); (0, None); (0, None); (1, None); (1, None); (1, None); (0, None); (1, None); (0, None); (1, None)].
 Definition losf_trace : list sevent :=
   Eval vm_compute in match srun false (sinit losf_progs) losf_sched with Some (_, tr) => tr | None => [] end.
 
@@ -542,7 +550,7 @@ Definition range_progs : nat -> list op :=
   fun t => match t with 0 => [ORange] | 1 => [OStore 1 1; OStore 2 1] | _ => [] end.
 Definition range_sched : list (nat * option nat) :=
   [(0, None); (0, None); (0, Some 1); (1, None); (1, None); (1, None); (1, None); (1, None); (1, None);
-   (0, Some 2); (0, None); (0, None)].
+   (0, Some 2); (0, None); (0, None); (0, None)].
 Definition range_trace : list sevent :=
   Eval vm_compute in match srun true (sinit range_progs) range_sched with Some (_, tr) => tr | None => [] end.
 
@@ -572,6 +580,9 @@ Definition range_inv (m : smap) (th : thread) : Prop :=
   | TRng must seen acc =>
       (forall k, get acc k = if existsb (Nat.eqb k) seen then get m k else None)
       /\ (forall k, get m k <> None -> In k seen \/ In k must)
+  | TRngCb must seen acc _ _ =>
+      (forall k, get acc k = if existsb (Nat.eqb k) seen then get m k else None)
+      /\ (forall k, get m k <> None -> In k seen \/ In k must)
   | TRes ORange (RList acc) => forall k, get acc k = get m k
   | _ => False
   end.
@@ -583,28 +594,30 @@ Lemma range_step : forall rep ch m th m' th' e,
 Proof.
   intros rep ch m [st ops] m' th' e Hinv Hs Hnr. unfold range_inv in Hinv. cbn [tstate] in Hinv.
   unfold tstep in Hs. cbn [tstate tops] in Hs.
-  destruct st as [|o|k v|must seen acc|o r]; try contradiction.
+  destruct st as [|o|k v|k v|must seen acc|must seen acc k1 v1|o r]; try contradiction.
   - destruct o; try contradiction. inversion Hs; subst. split; [reflexivity|]. unfold range_inv. cbn [tstate].
     split; [intros k; reflexivity|]. intros k Hk. right. apply get_in_keys. exact Hk.
   - destruct Hinv as [HI HII]. destruct ch as [k0|].
-    + destruct (existsb (Nat.eqb k0) seen) eqn:Es; [discriminate|]. inversion Hs; subst. split; [reflexivity|].
-      unfold range_inv. cbn [tstate]. split.
-      * intros k. cbn [existsb]. destruct (Nat.eqb k k0) eqn:Ek.
-        -- apply Nat.eqb_eq in Ek. subst k. cbn [orb]. destruct (get m' k0) as [v|] eqn:Eg.
-           ++ apply get_put_same.
-           ++ rewrite HI, Es. reflexivity.
-        -- cbn [orb]. apply Nat.eqb_neq in Ek. destruct (get m' k0) as [v|] eqn:Eg.
-           ++ rewrite get_put_other by assumption. apply HI.
-           ++ apply HI.
-      * intros k Hk. destruct (Nat.eq_dec k k0) as [->|Hne]; [left; left; reflexivity|].
+    + destruct (existsb (Nat.eqb k0) seen) eqn:Es; [discriminate|].
+      assert (Hmust : forall k, get m k <> None ->
+                In k (k0 :: seen) \/ In k (filter (fun k' => negb (Nat.eqb k' k0)) must)).
+      { intros k Hk. destruct (Nat.eq_dec k k0) as [->|Hne]; [left; left; reflexivity|].
         destruct (HII k Hk) as [H|H]; [left; right; assumption|right].
-        apply filter_In. split; [assumption|]. apply negb_true_iff. apply Nat.eqb_neq. assumption.
+        apply filter_In. split; [assumption|]. apply negb_true_iff. apply Nat.eqb_neq. assumption. }
+      destruct (get m k0) as [v|] eqn:Eg; inversion Hs; subst; (split; [reflexivity|]);
+        unfold range_inv; cbn [tstate]; (split; [|exact Hmust]); intros k; cbn [existsb];
+        destruct (Nat.eqb k k0) eqn:Ek; cbn [orb].
+      * apply Nat.eqb_eq in Ek. subst k. rewrite Eg. apply get_put_same.
+      * apply Nat.eqb_neq in Ek. rewrite get_put_other by assumption. apply HI.
+      * apply Nat.eqb_eq in Ek. subst k. rewrite HI, Es, Eg. reflexivity.
+      * apply HI.
     + destruct must; [|discriminate]. inversion Hs; subst. split; [reflexivity|]. unfold range_inv. cbn [tstate].
       intros k. rewrite HI. destruct (existsb (Nat.eqb k) seen) eqn:Es; [reflexivity|].
       destruct (get m' k) eqn:Eg; [|reflexivity]. exfalso.
       destruct (HII k) as [H|[]]; [congruence|].
       assert (existsb (Nat.eqb k) seen = true); [|congruence].
       apply existsb_exists. exists k. split; [assumption|apply Nat.eqb_refl].
+  - inversion Hs; subst. split; [reflexivity|]. unfold range_inv. cbn [tstate]. exact Hinv.
   - destruct o; try contradiction. destruct r; try contradiction. inversion Hs; subst. cbn in Hnr. contradiction.
 Qed.
 
